@@ -34,6 +34,8 @@
 //   service the context is handed to)| plain error, panic (nil func)              | plain; number of leaves run per request
 //  C.RelRoute() (the one accessor    | handler only reads it / overwrites every   | router-rich, seq-direct, seq-tiers, steps-router,
 //   of C returning a slice)          | element / append(rr[:1], x) and declines   | corpus: handlers with "w" (C20-g) [new]
+//  C.ShiftRoute(k) called BY A       | leaf handler shifts 1-2 segments and       | same streams: handlers with "sh" (C20-i) [new]
+//   HANDLER                          | declines (or serves)                       |
 //                                    | or delegates to a sub-router               |
 //  one *C through several services   | router misses after shifting the context,  | seq-direct (r1.Serve(c); r2.Serve(c); ...),
 //                                    | next router / next tier gets the same *C   | seq-tiers (ServiceSet{Auth,Resource,Guest,User,
@@ -124,6 +126,7 @@ type RouterOp struct {
 	E   string `json:"e,omitempty"`   // what the leaf returns: "" nil | notfound | internal | unauth | invalid | plain
 	W   int    `json:"w,omitempty"`   // what the handler does to the slice C.RelRoute() hands it: 1 overwrites every element with WS, 2 append(rr[:1], WS)
 	WS  string `json:"ws,omitempty"`
+	SH  int    `json:"sh,omitempty"`  // a leaf handler calls c.ShiftRoute(SH) before it returns (seeded change C20-i)
 }
 
 // scribble: a handler may do what it likes with a slice it was handed.
@@ -566,7 +569,7 @@ func buildRoutersRec(c *Case, rec func(*leafHit)) ([]*aries.Router, [][]int) {
 				return sub.Serve(cc)
 			}
 		}
-		e := op.E
+		e, sh := op.E, op.SH
 		return func(cc *aries.C) error {
 			lh := &leafHit{tag: h, rel: cc.Rel()}
 			if rec != nil {
@@ -575,6 +578,9 @@ func buildRoutersRec(c *Case, rec func(*leafHit)) ([]*aries.Router, [][]int) {
 				cc.Data["leaf"] = lh // concurrent mode: nothing shared
 			}
 			scribble(cc, w, ws)
+			if sh > 0 {
+				cc.ShiftRoute(sh) // a handler that walks the route itself
+			}
 			return leafError(e)
 		}
 	}
@@ -1109,10 +1115,13 @@ func runSteps(c *Case) {
 		if op.Nil {
 			return nil
 		}
-		h, e, w, ws := op.H, op.E, op.W, op.WS
+		h, e, w, ws, sh := op.H, op.E, op.W, op.WS, op.SH
 		return func(cc *aries.C) error {
 			hits = append(hits, leafHit{tag: h, rel: cc.Rel()})
 			scribble(cc, w, ws)
+			if sh > 0 {
+				cc.ShiftRoute(sh)
+			}
 			return leafError(e)
 		}
 	}
@@ -1371,6 +1380,13 @@ func genRouterDefs(r *hx.Rng, rich bool) []RouterDef {
 						op.E = "miss"
 					}
 				}
+				if op.H < 1000 && r.Intn(4) == 0 {
+					// the handler walks the route itself (ShiftRoute) and, often, declines
+					op.SH = 1 + r.Intn(2)
+					if r.Intn(3) != 0 {
+						op.E = "miss"
+					}
+				}
 				if r.Intn(20) == 0 && op.Op != "jsoncall" && op.Op != "call" {
 					op.Nil = true
 				}
@@ -1531,6 +1547,20 @@ func genCases(seed uint64, tier string) []Case {
 				{Ops: []RouterOp{{Op: "file", P: "admin", H: 21}, {Op: "default", H: 22}}},
 			},
 			Reqs: []Req{{"/docs/secret", "GET"}, {"/api/ADMIN", "GET"}, {"/x/y", "GET"}, {"/docs/secret/deep", "GET"}, {"/api/admin", "GET"}}})
+	}
+	// seeded change C20-i: GET /u/settings - the guest router's directory "u" walks one
+	// segment on (ShiftRoute(1)) and declines; the user router has the file "settings".
+	for _, mode := range []string{"direct", "tiers"} {
+		seq := []int{0, 1}
+		if mode == "tiers" {
+			seq = []int{-1, -1, 0, 1, -1}
+		}
+		add(Case{Stream: "corpus", Kind: "seq", Mode: mode, Seq: seq, U0: "u", L0: 0,
+			Routers: []RouterDef{
+				{Ops: []RouterOp{{Op: "dir", P: "u", H: 1, E: "miss", SH: 1}, {Op: "dir", P: "v", H: 2, E: "miss", SH: 2}}},
+				{Ops: []RouterOp{{Op: "file", P: "settings", H: 11}, {Op: "file", P: "u/settings", H: 12}, {Op: "file", P: "z", H: 13}}},
+			},
+			Reqs: []Req{{"/u/settings", "GET"}, {"/u/x/settings", "GET"}, {"/v/x/z", "GET"}, {"/u/settings/", "GET"}, {"/v/x/y/z", "GET"}}})
 	}
 	// ... and a Mux / Router / HostMux that keeps being registered on after it served
 	{
@@ -1874,6 +1904,9 @@ func genCases(seed uint64, tier string) []Case {
 				}
 				if r.Intn(4) == 0 {
 					op.W, op.WS = 1+r.Intn(2), []string{"a", "b"}[r.Intn(2)]
+				}
+				if r.Intn(5) == 0 {
+					op.SH = 1 + r.Intn(2)
 				}
 				c.Steps = append(c.Steps, Step{Rop: op})
 				tag++
